@@ -19,6 +19,7 @@ func c07(c *Ctx) {
 	r.Floor("C07.R3", 3)
 	r.Floor("C07.R4", 3)
 	r.Floor("C07.R5", 2)
+	r.Floor("C07.R6", 2)
 	ifns := p.FuncsIn("internal/iface")
 	// ---- R1 retention of stub-embedded pointers
 	var makers []*ssa.Function // functions whose unsafe.Pointer parameter reaches the stub emitter
@@ -155,6 +156,25 @@ func c07(c *Ctx) {
 				}
 			}
 		})
+		// the itab handed out is a fresh allocation of this call (never shared package-level state)
+		freshTab := false
+		sharedWhy := ""
+		eachInstr(mi, func(i ssa.Instruction) {
+			if st, ok := i.(*ssa.Store); ok {
+				if fa, ok := st.Addr.(*ssa.FieldAddr); ok && fieldVar(fa.X.Type(), fa.Field).Name() == "Tab" {
+					as := origins(st.Val)
+					freshTab = len(as) > 0
+					for _, a := range as {
+						if a.Kind != "alloc" {
+							freshTab = false
+							sharedWhy = a.String()
+						}
+					}
+				}
+			}
+		})
+		r.Check(freshTab, "C07.R3", "fabricated method table is private to the variable", p.Pos(mi.Pos()), "Tab is a fresh allocation per MakeInterface call",
+			"the fabricated itab comes from shared state ("+sharedWhy+") instead of a fresh allocation: all variables of one interface type share one method table, so mocking a method on one variable redirects the others and slots mocked earlier stay filled")
 		if table == nil {
 			r.Und("C07.R3", "method table in MakeInterface", p.Pos(mi.Pos()), "no local uintptr array")
 		} else {
@@ -366,6 +386,15 @@ func c07(c *Ctx) {
 			r.Check(okSame, "C07.R4", "back-up and overwrite address the same variable", p.Pos(pi.Pos()), "", "back-up and overwrite use different addresses")
 		}
 	}
+	// ---- R6 (shared with C12.R2) the stub is installed whenever an interface mocker creates its continuation
+	checkStubInstalledWithContinuation(p, r, "C07.R6", func(f *ssa.Function) bool {
+		rt := f.Signature.Recv().Type()
+		if pt, ok := rt.(*types.Pointer); ok {
+			rt = pt.Elem()
+		}
+		nt, ok := rt.(*types.Named)
+		return ok && strings.Contains(nt.Obj().Name(), "Interface")
+	})
 	// ---- R5 allocator errors propagate
 	n := checkErrorsUsed(p, r, "C07.R5", func(cal *ssa.Function) bool {
 		return (relPkg(cal) == "internal/iface" && strings.HasPrefix(cal.Name(), "MakeMethodCaller")) || (relPkg(cal) == "internal/bytecode/stub")
